@@ -342,7 +342,8 @@ def extend(run: Run, prop: str, tier: str, rnd: random.Random) -> None:
         progs = []
         for fam, port in (("ET", 8899), ("ET", 502), ("DT", 8899), ("DT", 502), ("ES", 8899)):
             for ka in (True, False):
-                for n in (1, 2, 3):
+                # every history of up to 4 calls (thorough: 5): a streak of failures of any kind, then successes
+                for n in ((1, 2, 3, 4) if quick else (1, 2, 3, 4, 5)):
                     for kinds in itertools.product("SFRE", repeat=n):
                         progs.append(life_program(fam, port, ka, "".join(kinds)))
         # composite operations inside the histories (ET): all histories of length <= 2, of length 3 those that end with an
